@@ -304,7 +304,7 @@ pub fn main_c13(env: &Env, tier: &str, seed: u64, replay: Option<&str>) -> i32 {
     }
     ev.evaluations = runs;
     ev.distinct_nontrivial = distinct.len() as u64;
-    ev.rule = "one evaluation = one `delta ... --show-config` execution of the real binary with a generated gitconfig/args/environment under one hash seed; a placement sets one probe option from 1-5 sources drawn from 24 source kinds; the lattice part enumerates every single kind and every unordered pair of kinds for each of 11 probe options (both construction orders) plus --no-gitconfig against every kind; the rest is seeded sampling. distinct_nontrivial counts distinct placements (every placement has at least one source, i.e. something for precedence to decide).".into();
+    ev.rule = "one evaluation = one `delta ... --show-config` execution of the real binary with a generated gitconfig/args/environment under one hash seed; a placement sets one probe option from 1-5 sources drawn from 27 source kinds; the lattice part enumerates every single kind and every unordered pair of kinds for each of 11 probe options (both construction orders) plus --no-gitconfig against every kind; the rest is seeded sampling. distinct_nontrivial counts distinct placements (every placement has at least one source, i.e. something for precedence to decide).".into();
     ev.counters.insert("placements".into(), placements.len() as u64);
     ev.counters.insert("lattice_placements".into(), n_lattice as u64);
     ev.counters.insert("hash_seeds_per_placement".into(), (hash_seeds.len() + 1) as u64);
